@@ -1,4 +1,4 @@
-import PewProofs.ThermoHistory
+import PewProofs.ThermoDecode
 
 /-! # C03 — property theorems (statements only depend on `PewModel.Thermo` and the hypothesis
 structures `RowsOK` / `ColsOK` of `PewProofs`) -/
@@ -917,6 +917,78 @@ theorem history_mtime_irrelevant (x : Ext V) (f : Nat → Nat) : ∀ (evs : List
         simp only [Option.map_some, Option.some.injEq] at this
         simp only [this]
 
+
+/-! ## from the characters of the file to its lines (byte order mark, `\r\n` / `\n`) -/
+
+/-- **The text layer gives the lines back.** For every list of lines (each some characters that are no
+line end, then `\n`), written with `\n` or `\r\n` at the end of each line, with or without a UTF-8 byte
+order mark in front: dropping the byte order mark, translating the line ends and cutting after every `\n`
+returns exactly those lines. (Without a byte order mark the text itself must not begin with U+FEFF.) -/
+theorem decodeLines_rawText (bom : Bool) (eol : List Char) (heol : eol = ['\n'] ∨ eol = ['\r', '\n']) (lines : List String)
+    (h : ∀ l ∈ lines, IsLine l)
+    (hfirst : bom = false → ∀ l ∈ lines.head?, l.toList.head? ≠ some bomChar) :
+    decodeLines (rawText bom eol lines) = lines := by
+  have hstrip : stripBom (rawText bom eol lines) = lines.flatMap (rawLine eol) := by
+    unfold rawText
+    cases bom with
+    | true => simp [stripBom]
+    | false =>
+      simp only [Bool.false_eq_true, if_false, List.nil_append]
+      cases lines with
+      | nil => rfl
+      | cons l tl =>
+        rw [List.flatMap_cons]
+        exact head_rawLine_ne_bom eol heol l (h l List.mem_cons_self) (hfirst rfl l (by simp)) _
+  unfold decodeLines
+  rw [hstrip, univNl_lines eol heol lines h, splitKeep_lines lines h, List.map_map]
+  conv => rhs; rw [← List.map_id lines]
+  apply List.map_congr_left
+  intro l _
+  simp [String.ofList_toList]
+
+/-- **… for the text of a table**: every line ends with the field `"\n"`, no other field holds a line
+end, the first line starts with an empty field (both layouts do), and the delimiter is neither a line end
+nor U+FEFF. With this the theorems about the text of an export (`load_text_rows`, `readData_text_cols`,
+`sniff_text`, `history_spec`, …) are theorems about the characters of the file. -/
+theorem decode_table (bom : Bool) (eol : List Char) (heol : eol = ['\n'] ∨ eol = ['\r', '\n']) (d : Char) (t : Table)
+    (hdn : d ≠ '\n') (hdr : d ≠ '\r') (hdb : d ≠ bomChar)
+    (hend : ∀ r ∈ t, r.getLast? = some "\n")
+    (hclean : ∀ r ∈ t, ∀ f ∈ r.dropLast, NoEol f)
+    (hfirst : ∀ r ∈ t.head?, ∃ g fs, r = "" :: g :: fs) :
+    decodeLines (rawText bom eol (renderText d t)) = renderText d t := by
+  apply decodeLines_rawText bom eol heol
+  · intro l hl
+    unfold renderText at hl
+    obtain ⟨r, hr, rfl⟩ := List.mem_map.mp hl
+    rw [row_split r (hend r hr)]
+    exact isLine_joinLine d hdn hdr _ (hclean r hr)
+  · intro _ l hl
+    cases t with
+    | nil => simp [renderText] at hl
+    | cons r rest =>
+      obtain ⟨g, fs, rfl⟩ := hfirst r (by simp)
+      simp only [renderText, List.map_cons, List.head?_cons, Option.mem_def, Option.some.injEq] at hl
+      subst hl
+      simp only [joinLine, List.map_cons, joinC, String.toList_ofList]
+      intro hb
+      have : ("".toList ++ d :: joinC d (g.toList :: fs.map String.toList)).head? = some d := by simp
+      rw [this] at hb
+      exact hdb (Option.some.inj hb)
+
+/-- **The two export layouts as files**: with either line end and with or without a byte order mark, the
+text layer hands the readers exactly the lines of the rendered export (no field holds a line end). -/
+theorem decode_export (sh : Nat → String) (bom : Bool) (eol : List Char) (heol : eol = ['\n'] ∨ eol = ['\r', '\n']) (d : Char) (a : Acq)
+    (hdn : d ≠ '\n') (hdr : d ≠ '\r') (hdb : d ≠ bomChar)
+    (hcleanR : ∀ r ∈ renderRows sh a, ∀ f ∈ r.dropLast, NoEol f)
+    (hcleanC : ∀ r ∈ renderCols sh a, ∀ f ∈ r.dropLast, NoEol f) :
+    decodeLines (rawText bom eol (renderText d (renderRows sh a))) = renderText d (renderRows sh a) ∧
+    decodeLines (rawText bom eol (renderText d (renderCols sh a))) = renderText d (renderCols sh a) := by
+  constructor
+  · exact decode_table bom eol heol d _ hdn hdr hdb (renderRows_getLast sh a) hcleanR
+      (by intro r hr; simp only [renderRows, List.cons_append, List.head?_cons, Option.mem_def, Option.some.injEq] at hr; exact ⟨_, _, hr.symm⟩)
+  · exact decode_table bom eol heol d _ hdn hdr hdb (renderCols_getLast sh a) hcleanC
+      (by intro r hr; simp only [renderCols, List.cons_append, List.nil_append, List.head?_cons, Option.mem_def, Option.some.injEq] at hr; exact ⟨_, _, hr.symm⟩)
+
 /-! ## non-vacuity: a 2-sample, 2-scan, 2-element acquisition with all five channels -/
 
 section examples
@@ -1172,6 +1244,19 @@ example : ∀ p mt c, SEvent.write p mt c ∈ exHistory → c = .rows ';' false 
 /-- `load_full_false`, `readData_text_rows` … on the example: `;` is no letter of `MainRuns` and occurs in no field -/
 example : ';' ∉ "MainRuns".toList ∧ ',' ∉ "MainRuns".toList := by decide
 example : exAcq.chan 4 = chanOf false ∧ exAcq.chan 3 = chanOf true := by decide
+
+
+/-- `decode_export` on the example: no field of either layout holds a line end; the raw characters of the
+columns file with a byte order mark and `\r\n` line ends, and what the text layer makes of them -/
+example : (∀ r ∈ renderRows exShow exAcq, ∀ f ∈ r.dropLast, '\n' ∉ f.toList ∧ '\r' ∉ f.toList) ∧
+    (∀ r ∈ renderCols exShow exAcq, ∀ f ∈ r.dropLast, '\n' ∉ f.toList ∧ '\r' ∉ f.toList) := by decide
+example : ';' ≠ '\n' ∧ ';' ≠ '\r' ∧ ';' ≠ bomChar := by decide
+example : (rawText true ['\r', '\n'] (renderText ';' (renderCols exShow exAcqC))).take 22 =
+    [bomChar, ';', ';', ';', ';', 'S', 'a', 'm', 'p', 'l', 'e', ' ', '1', ';', '2', ';', '\r', '\n', ';', ';', ';', ';'] := by decide
+example : (decodeLines (rawText true ['\r', '\n'] (renderText ';' (renderCols exShow exAcqC)))).take 3 =
+    [";;;;Sample 1;2;\n", ";;;;<Identifier>;<Identifier>;\n", "MainRuns;0;31P;Analog;0,000;1,000;\n"] := by decide +kernel
+/-- a lone `\r` is a line end too, a second U+FEFF is text -/
+example : decodeLines [bomChar, bomChar, 'a', '\r', 'b', '\r', '\n', '\n', 'c'] = [String.ofList [bomChar, 'a', '\n'], "b\n", "\n", "c"] := by decide
 
 end examples
 
